@@ -10,7 +10,7 @@ def run(ctx):
         raise vlib.Inconclusive("sanity: the invariant Increasing does not catch the pinned merge pass:\n" + r["tail"])
     ctx.cov["sanity"] = "StepBack=FALSE (merge pass of the pinned commit): TLC reports Increasing violated after %d states" % r["distinct"]
     cfgs = ["MC_valid.cfg", "MC_bytes.cfg"] if ctx.tier == "quick" else ["MC_valid_t.cfg", "MC_bytes_t.cfg"]
-    vlib.case_component(ctx, "TrieReplace", "MultiMatch", "MultiMatch", cfgs, "c05", extra_args=["-prop", "C06"], tlc_timeout=3000)
+    vlib.case_component(ctx, "TrieReplace", "MultiMatch", "MultiMatch", cfgs, "c05", overlays=["algz"], extra_args=["-prop", "C06"], tlc_timeout=3000)
     ctx.assumptions += ["patterns are drawn from a pool of 15 patterns (shared prefixes, suffix/infix relations, 1-4 byte runes, U+FFFD) in sets of <= 2 (quick) / 3 (thorough); texts are all rune sequences over {a, b, zhong, shi} and all byte sequences over 8 bytes (incl. 0xFF and truncated runes) up to 4 / 5 symbols",
                         "patterns are also inserted in reverse order with a duplicate and an empty pattern"]
 
